@@ -20,7 +20,8 @@ EXPLANATION = (
     "followed by garbage collection. A reference model tracks identity classes (objects created with the same explicit token, and every "
     "copy of an object, share a class; separately created locks are distinct classes) and one held-bit per class. After every operation: "
     "acquire(blocking=False) succeeds iff the class is free, locked() equals the held-bit for EVERY live object (so holding one copy blocks "
-    "all others and never blocks a separately created lock), release frees the whole class. The inputs are operation choices without "
+    "all others and never blocks a separately created lock), release frees the whole class; after every operation each free lock is "
+    "additionally probed (acquire through one copy, every copy must report locked and no other lock may, release). The inputs are operation choices without "
     "arithmetic: the solver enumerates the decision tree and proves it exhausted (bounded exhaustive).")
 ASSUMPTIONS = [
     "mutual exclusion is observed with non-blocking acquires from one thread: threading.Lock is not re-entrant, so acquire(blocking=False) returning False is "
@@ -30,7 +31,7 @@ ASSUMPTIONS = [
 STUBS = []
 ENUM = ["every operation and target of the history"]
 OUTSIDE = ["blocking acquires from several OS threads", "other processes (the class documents that it does not exclude across processes)", "histories longer than the bound"]
-BOUNDS = {"quick": dict(history="<= 4 operations, <= 3 live objects", ops=9), "thorough": dict(history="<= 6 operations, <= 4 live objects", ops=9)}
+BOUNDS = {"quick": dict(history="<= 4 operations, <= 3 live objects", ops=11), "thorough": dict(history="<= 6 operations, <= 4 live objects", ops=11)}
 
 
 def functions():
@@ -38,7 +39,7 @@ def functions():
             SerializableLock.release, SerializableLock.locked]
 
 
-OPS = ("new", "newA", "newB", "pickle", "pickle0", "copy", "acquire", "release", "drop")
+OPS = ("new", "newA", "newB", "pickle", "pickle0", "copy", "acquire", "release", "drop", "drop_one", "new_reseeded")
 
 
 def mk(L, maxobj):
@@ -52,8 +53,8 @@ def mk(L, maxobj):
                 tgt = 0
             else:
                 op = e.pick(f"op{t}", OPS)
-                tgt = e.choice(f"tgt{t}", nobj) if op not in ("new", "newA", "newB") else 0
-            if op in ("new", "newA", "newB", "pickle", "pickle0", "copy"):
+                tgt = e.choice(f"tgt{t}", nobj) if op not in ("new", "newA", "newB", "new_reseeded") else 0
+            if op in ("new", "newA", "newB", "pickle", "pickle0", "copy", "new_reseeded"):
                 e.assume(nobj < maxobj)
                 nobj += 1
             elif op == "drop":
@@ -66,15 +67,29 @@ def mk(L, maxobj):
     def run(e, hist):
         gc.collect()
         SerializableLock._locks.clear() if hasattr(SerializableLock._locks, "clear") else None
+        import random
+        random.seed(987654321)      # every run starts from the same global RNG state (symbolic run and native replay must agree)
         objs = []          # live objects: (lock object, class id)
         held = {}          # class id -> bool
         tok_class = {}     # explicit token -> class id
         ncls = 0
         trace = []
         uniq = f"{id(hist)}"
+        lk = src = other = None
         for op, tgt in hist:
-            if op in ("new", "newA", "newB"):
-                if op == "new":
+            lk = src = other = None         # no stray references: dropped objects must really be collectable
+            if op in ("new", "newA", "newB", "new_reseeded"):
+                if op in ("new", "new_reseeded"):
+                    if op == "new_reseeded":
+                        # a program that seeds the global RNGs for reproducibility before each step: separately created locks
+                        # must still be distinct
+                        import random
+                        random.seed(12345)
+                        try:
+                            import numpy as _np
+                            _np.random.seed(12345)
+                        except Exception:
+                            pass
                     lk = SerializableLock()
                     c = ncls
                     ncls += 1
@@ -122,11 +137,26 @@ def mk(L, maxobj):
                     trace.append("skip")
                     continue
                 objs = [(o, cc) for o, cc in objs if cc != c]
+                lk = None
+                gc.collect()
+            elif op == "drop_one":
+                # forget ONE object (e.g. the first-created one) while other copies of the same lock stay alive
+                objs.pop(tgt)
+                lk = None
                 gc.collect()
             # invariant over every live object
             for lk, c in objs:
                 e.check(lk.locked() == held[c], f"locked() is {lk.locked()} for an object whose identity class is {'held' if held[c] else 'free'}: "
                                                 "copies of one lock disagree, or separately created locks interfere")
+            # probe: taking any free lock through one of its copies must lock exactly the copies of that lock
+            for i, (lk, c) in enumerate(objs):
+                if held[c]:
+                    continue
+                e.check(lk.acquire(blocking=False) is True, "a free lock could not be acquired")
+                for other, c2 in objs:
+                    e.check(other.locked() == (c2 == c or held[c2]), "holding one copy does not lock exactly the copies of the same lock")
+                lk.release()
+            lk = other = None
             trace.append((op, tuple(sorted((c, held[c]) for _, c in objs))))
         # leave no lock held
         for lk, c in objs:
